@@ -24,13 +24,16 @@ def run(prop, tier, seed):
             rep.violation(m["clause"], {**m, "channel": "R"})
     for rec in r.printed[:: max(1, len(r.printed) // 3)][:3]:
         rep.sample({"channel": "R", "vector": rec})
+    from harness.checks import conf_props, sys_props
+    conf_props.run_into(rep, "C10", tier, seed)
+    sys_props.run_into(rep, "C10", tier, seed)
     # codec entry point: default_dialect x three keys (only the format-dialect level exists there)
     n = codec_part(rep)
     rep.count(n)
     rep.assumptions += ["markers: every registration returns a string naming itself, so the output identifies the winning level",
                         "mixin entry point: field option, field strategy, {call dialect, Config.dialect, Config.serialization_strategy} x {NewType, exact, origin}; "
                         "codec entry point: default_dialect x {NewType, exact, origin}"]
-    return rep.finish({"exhaustive": tier != "quick",
+    return rep.finish({"exhaustive": False,
                        "rule": "all 2^11 subsets with every registration providing both directions; for each (quick: small/large subsets only) every single-registration "
                                "variant ser-only / deser-only / pass_through; both directions; distinct = distinct (class, call, direction)"})
 
